@@ -166,7 +166,10 @@ def gen(cls, idx, rng, tier):
         for _ in range(rng.randint(0, 2)):
             x, y = rng.choice(chips)
             ops.insert(rng.randrange(len(ops) + 1),
-                       ("vbase", x, y, M.VCPU_BASE + 0x1000 * rng.randrange(8)))
+                       ("vbase", x, y, M.VCPU_BASE + 0x1000 * rng.randrange(8)
+                        # (a pointer is a number: nothing says the blocks
+                        # sit on a word boundary)
+                        + rng.choice([0, 0, 0, 1, 2, 3, 6])))
     return dict(w=w, h=h, buf=b, window=window, faults=faults, ops=ops,
                 vbases=cls == "structs" and rng.random() < .7,
                 seed_mem=rng.randrange(1 << 30))
